@@ -10,8 +10,11 @@
 (*   accepts : set of scheme names the callback accepts                    *)
 (*   pparams, oparams : sequences of [in, name, kind]  (path-item / operation level) *)
 (*   values  : sequence of [in, name, text]  what the request carries      *)
-(*   body    : "none" | "pass" | "fail"                                    *)
+(*   bdecl   : "none" | "optional" | "required"   what the operation declares as requestBody          *)
+(*   body    : "none" | "empty" | "pass" | "fail" | "otherct" | "badjson"  what the request carries     *)
 (*   multi, exclBody, exclQuery, authReadsBody : BOOLEAN                   *)
+(*   hist    : sequence of steps [via, pparams, oparams, opSec, docSec, bdecl]: further validations   *)
+(*             served by the same process / document / Operation value (see View)                     *)
 (***************************************************************************)
 EXTENDS Naturals, Sequences, FiniteSets, TLC
 
@@ -37,7 +40,18 @@ Passes(c, e) == LET t == TextOf(c, e) IN
                 IF t = "absent" THEN ~IsRequired(e)
                 ELSE (e.kind \in {"int", "reqint", "reqintd"} /\ t = "1") \/ (e.kind = "strx" /\ t = "x")
 
-BodyFails(c) == c.body = "fail" /\ ~c.exclBody
+(* the body part.  What the operation declares and what the request carries are independent:        *)
+(*   - no requestBody declared: there is no body part, whatever the request carries                   *)
+(*   - the request carries no bytes ("none": no body at all, "empty": a body of length 0): the part   *)
+(*     fails exactly when the declaration says required                                               *)
+(*   - bytes: "pass" is a JSON document valid against the declared schema; "fail" a JSON document     *)
+(*     that is not; "otherct" bytes under a content type the operation does not declare; "badjson"    *)
+(*     bytes that are not JSON under the declared JSON content type                                   *)
+(* ExcludeRequestBody removes the whole part: presence of a required body included.                   *)
+BodyPartFails(c) ==
+   /\ c.bdecl # "none"
+   /\ IF c.body \in {"none", "empty"} THEN c.bdecl = "required" ELSE c.body # "pass"
+BodyFails(c) == BodyPartFails(c) /\ ~c.exclBody
 
 FailingParts(c) ==
    (IF SecOK(c) THEN {} ELSE {"security"})
@@ -45,6 +59,28 @@ FailingParts(c) ==
    \cup (IF BodyFails(c) THEN {"body"} ELSE {})
 
 Accepts(c) == FailingParts(c) = {}
+
+(* History.  The answer of a validation is a function of the route it is given -- the path item and  *)
+(* the operation as they are AT THE TIME OF THE CALL -- the request and the options.  A step of a    *)
+(* history is another validation in the same process:                                                *)
+(*   via "share"   : through a second path item that holds the SAME Operation value (a document      *)
+(*                   assembled in code: an alias path); its path-level parameters are the step's     *)
+(*   via "sibling" : of another operation (another method) of the SAME path item; operation-level    *)
+(*                   parameters, security and body declaration are the step's                        *)
+(*   via "edit"    : through the same route after the document was edited in place (path-level /     *)
+(*                   operation-level parameters, operation / document security, requestBody)         *)
+(*   via "back"    : through the first route again, its original content restored                    *)
+(* View(c, s) is the case as that validation sees it.                                                *)
+View(c, s) == [c EXCEPT !.pparams = s.pparams, !.oparams = s.oparams, !.opSec = s.opSec, !.docSec = s.docSec, !.bdecl = s.bdecl]
+StepOf(c, via) == [via |-> via, pparams |-> c.pparams, oparams |-> c.oparams, opSec |-> c.opSec, docSec |-> c.docSec, bdecl |-> c.bdecl]
+(* what a step may change: a shared Operation value carries its parameters, security and body; a     *)
+(* sibling operation lives under the same path-level parameters and document                         *)
+StepWellFormed(c, prev, s) ==
+   CASE s.via = "share"   -> s.oparams = prev.oparams /\ s.opSec = prev.opSec /\ s.docSec = prev.docSec /\ s.bdecl = prev.bdecl
+     [] s.via = "sibling" -> s.pparams = prev.pparams /\ s.docSec = prev.docSec
+     [] s.via = "edit"    -> TRUE
+     [] s.via = "back"    -> s = StepOf(c, "back")
+     [] OTHER -> FALSE
 
 -----------------------------------------------------------------------------
 (* L2: the security evaluation as the code performs it: requirements in order, the schemes *)
